@@ -224,7 +224,11 @@ MemoBodies == { <<"or", <<"then", Var1, J("a")>>, <<"then", Var1, J("b")>>>>,
                 <<"or", <<"then", Var1, J("b")>>, <<"or", J("b"), Var1>>>>,
                 <<"then", <<"ornot", <<"then", Var1, J("b")>>>>, Var1>>,
                 <<"or", <<"then", J("a"), Var1>>, <<"then", Var1, <<"then", Var1, J("b")>>>>>>,
-                <<"collect", <<"rep", <<"or", <<"then", Var1, J("b")>>, J("b")>>, 0, Inf>>, "vec">> }
+                <<"collect", <<"rep", <<"or", <<"then", Var1, J("b")>>, J("b")>>, 0, Inf>>, "vec">>,
+                \* the memoized failure first happens where the pending error is thrown away (not, a successful
+                \* recovery), then the same value is hit again at the same position outside
+                <<"or", <<"ithen", <<"not", Var1>>, J("b")>>, <<"then", Var1, J("b")>>>>,
+                <<"or", <<"then", <<"recover", <<"then", Var1, J("c")>>, <<"via", <<"to", J("b"), "r">>>>>>, J("c")>>, <<"then", Var1, J("b")>>>> }
 MemoTemplates == {<<"let", d, b>> : d \in MemoDefs, b \in MemoBodies}
 (* recovery inside recovery (C08): the inner parser itself emits errors *)
 RInner == {<<"via", J("b")>>, <<"skipuntil", <<"any">>, J("b")>>, <<"retry", <<"any">>, J("b")>>}
@@ -279,12 +283,24 @@ TxtCTemplates ==
   \cup {<<"then", TAKw(<<"a">>), <<"then", TWs, TAIdent>>>>, <<"or", TAKw(<<"a">>), TAIdent>>,
         <<"collect", <<"rep", <<"theni", TAIdent, TNl>>, 0, Inf>>, "vec">>,
         <<"collect", <<"rep", <<"or", TInt("10"), <<"or", TUIdent, <<"or", TNl, TDigits("16")>>>>>>, 0, 3>>, "vec">>}
-Templates(fam) == CASE fam = "memoT" -> MemoTemplates [] fam = "txt" -> TxtTemplates [] fam = "txtc" -> TxtCTemplates
+(* spans of matches that consume nothing, after / between / before consumed tokens (C07, C10): where the *)
+(* input kinds differ most (gapped token spans, end of input, byte offsets)                                *)
+GapBefore == {J("a"), <<"any">>, <<"ornot", J("a")>>, JJ("a", "b")}
+GapEmpty == {<<"empty">>, <<"ornot", J("b")>>, <<"collect", <<"rep", J("b"), 0, Inf>>, "vec">>, <<"rewind", <<"any">>>>, <<"not", J("b")>>}
+GapCore == {<<"then", x, <<cap, e>>>> : x \in GapBefore, cap \in {"tospan", "mw"}, e \in GapEmpty}
+           \cup {<<"then", x, <<"validate", e, "1", "F">>>> : x \in GapBefore, e \in {<<"empty">>, <<"ornot", J("b")>>}}
+           \cup {<<"then", x, <<"ornot", <<"trymap", e, "F">>>>>> : x \in GapBefore, e \in {<<"empty">>, <<"ornot", J("b")>>}}
+GapTemplates ==
+  GapCore \cup {<<"then", g, RestCap>> : g \in GapCore}
+  \cup {<<"collect", <<"rep", <<"then", J("a"), <<"tospan", <<"ornot", J("b")>>>>>>, 0, Inf>>, "vec">>,
+        <<"foldlw", <<"any">>, <<"rep", <<"then", J("a"), <<"tospan", <<"empty">>>>>>, 0, Inf>>, "g">>,
+        <<"foldrw", <<"rep", J("a"), 0, Inf>>, <<"tospan", <<"empty">>>>, "g">>}
+Templates(fam) == CASE fam = "memoT" -> MemoTemplates [] fam = "gapT" -> GapTemplates [] fam = "txt" -> TxtTemplates [] fam = "txtc" -> TxtCTemplates
                     \* byte inputs have no text::newline; the radix family looks at int / digits only
                     [] fam = "txtb" -> {g \in TxtTemplates \cup TxtCTemplates : ~HasOp(g, {"newline"}) /\ g \notin {TUKw(<<"E", "a">>), <<"then", TUKw(<<"E", "a">>), RestCap>>}}
                     [] fam = "txtr" -> {<<"then", tp, RestCap>> : tp \in {TDigits(r) : r \in {"2", "8", "10", "16", "36"}} \cup {TInt(r) : r \in {"2", "8", "10", "16", "36"}}} [] fam = "drpT" -> DrpTemplates [] fam = "rcvT" -> RcvTemplates [] fam = "lblT" -> LblTemplates
                     [] fam = "pratt" -> PrattTemplates [] fam = "rec" -> RecTemplates [] fam = "lrec" -> LRecTemplates [] fam = "repT" -> RepTemplates
-TemplateFams == {"rec", "lrec", "repT", "pratt", "memoT", "rcvT", "lblT", "drpT", "txt", "txtc", "txtb", "txtr"}
+TemplateFams == {"rec", "lrec", "repT", "pratt", "memoT", "rcvT", "lblT", "drpT", "txt", "txtc", "txtb", "txtr", "gapT"}
 
 Grammars == IF Fam \in TemplateFams THEN {g \in Templates(Fam) : Fam = "lrec" \/ WF(g)}
             ELSE {g \in UNION {GSz(Fam, n) : n \in 1..MaxSize} : WF(g)}
